@@ -39,10 +39,10 @@ type c17Stored struct {
 }
 
 type c17Case struct {
-	Platform string        `json:"platform"` // gitlab | github
-	Budget   int           `json:"max_comments"`
-	Initial  []c17Stored   `json:"initial_comments"`
-	Rounds   [][]c17Report `json:"rounds"`
+	Platform string            `json:"platform"` // gitlab | github
+	Budget   int               `json:"max_comments"`
+	Initial  []c17Stored       `json:"initial_comments"`
+	Rounds   [][]c17Report     `json:"rounds"`
 	Patches  map[string]string `json:"patches,omitempty"`
 }
 
@@ -58,8 +58,8 @@ type c17Commenter struct {
 	deleted  []c17Stored
 }
 
-func (c *c17Commenter) Describe() string { return "in-memory " + c.platform }
-func (c *c17Commenter) Destinations(context.Context) ([]any, error) { return []any{c.dst}, nil }
+func (c *c17Commenter) Describe() string                                              { return "in-memory " + c.platform }
+func (c *c17Commenter) Destinations(context.Context) ([]any, error)                   { return []any{c.dst}, nil }
 func (c *c17Commenter) Summary(context.Context, any, reporter.Summary, []error) error { return nil }
 func (c *c17Commenter) List(context.Context, any) ([]reporter.ExistingComment, error) {
 	var out []reporter.ExistingComment
